@@ -532,6 +532,10 @@ class AsyncPettingZooVecEnv(PettingZooVecEnv):
             if i == num_errors - 1:
                 logger.error("Raising the last exception back to the main process.")
                 self._state = AsyncState.DEFAULT
+                # The worker sends the exception instance itself: re-raise it as it is, building a
+                # new one from it fails for classes whose constructor takes more than one argument
+                if isinstance(value, exctype):
+                    raise value
                 raise exctype(value)
 
     def _assert_is_running(self) -> None:
